@@ -28,7 +28,7 @@ ASSUMPTIONS = ['whether the callee name is looked up before or after its argumen
 REAL = ['smartquery.*']
 STUB = ['host probes t / boom (scripted, with a fault plan)']
 REACH_PROBES = ('lazy_and', 'lazy_or', 'if', 'probe_raise_fired', 'slice', 'dict_literal', 'setitem', 'setitemop',
-                'short', 'lambda_body_probe', 'literal_leaf_next_to_lazy', 'call_args', 'del', 'lamcall')
+                'short', 'lambda_body_probe', 'literal_leaf_next_to_lazy', 'call_args', 'del', 'lamcall', 'undefined_callee', 'same_operand_twice')
 
 TRUTHY = {'num': [['num', '1'], ['num', '2.5'], ['neg', ['num', '3']]], 'str': [['str', 'a'], ['str', '0']],
           'bool': [['bool', True]], 'list': [['list', [['num', '1']]], ['list', [['list', []]]]], 'none': [['num', '7']]}
@@ -97,13 +97,23 @@ class Shape:
 
     def call(self, f, args):
         self.kinds.add('call_args')
+        if self.r.random() < 0.04:
+            # the callee does not exist: its arguments are still evaluated (once, left to right) before the call fails
+            f = self.r.choice(['nosuch', 'undefined_fn'])
+            self.kinds.add('undefined_callee')
         return ['call', f, args, gen.sugar(self.r, len(args))]
 
     def t_num(self, d):
         r = self.r
         k = weighted(r, [('arith', 6), ('neg', 1), ('call2', 2), ('index', 2), ('len', 1), ('round', 1), ('tnest', 1), ('get', 1)])
         if k == 'arith':
-            return ['bin', r.choice(['+', '-', '*', '/', '**']), self.e('num', d), self.e('num', d)]
+            left = self.e('num', d)
+            if r.random() < 0.12:
+                # the very same (impure) operand expression on both sides: still two evaluations
+                self.kinds.add('same_operand_twice')
+                import copy as _c
+                return ['bin', r.choice(['+', '-', '*', '/']), left, _c.deepcopy(left)]
+            return ['bin', r.choice(['+', '-', '*', '/', '**']), left, self.e('num', d)]
         if k == 'neg':
             return ['neg', self.e('num', d)]
         if k == 'call2':
